@@ -433,6 +433,12 @@ type scenario struct {
 	schedule    []cut
 	singleton   bool
 	sendClear   bool
+	// lateBg: the background drain is started only once 20 requests are queued, so that it does
+	// not begin with its 1.7 s empty-queue nap and is busy while SendAndClear intervenes;
+	// clearPauseUs: pause between two SendAndClear calls (0 = tight loop). Pacing only shapes
+	// the interleaving; no verdict depends on it.
+	lateBg       bool
+	clearPauseUs int
 	relicense   bool // change the client's default license between two phases of sends
 	poison      bool // now and then a sender hands over a pack whose Write panics half-way
 	batchDrain  bool // queue mode without the background goroutine: the caller drains with SendAndClear()
@@ -534,6 +540,7 @@ func runScenario(c *vlib.Ctx, sc scenario, r *vlib.Rand, label string) {
 		opts = append(opts, oneway.WithUseQueue(), oneway.WithQueueSize(int32(sc.queueSize)))
 	}
 	var cl *oneway.OneWayTcpClient
+	var bgStarted chan struct{} // lateBg: closed once the drain goroutine has been started
 	if sc.singleton {
 		ctx, cancel := context.WithCancel(context.Background())
 		opts = append(opts, oneway.WithContext(ctx, cancel))
@@ -541,8 +548,18 @@ func runScenario(c *vlib.Ctx, sc scenario, r *vlib.Rand, label string) {
 		defer cl.Destroy()
 	} else {
 		cl = oneway.NewOneWayTcpClientVerif(opts...)
-		if sc.bg {
+		if sc.bg && !sc.lateBg {
 			cl.VerifStartProcess()
+		}
+		if sc.bg && sc.lateBg {
+			bgStarted = make(chan struct{})
+			go func() {
+				for w := 0; w < 4000 && cl.Queue.Size() < 20; w++ {
+					time.Sleep(50 * time.Microsecond)
+				}
+				cl.VerifStartProcess()
+				close(bgStarted)
+			}()
 		}
 		defer cl.VerifCancel()
 	}
@@ -582,6 +599,7 @@ func runScenario(c *vlib.Ctx, sc scenario, r *vlib.Rand, label string) {
 	var open int32
 	var maxOpen int32
 	stopClear := make(chan struct{})
+	var clearCalls int64
 	if sc.sendClear {
 		wg.Add(1)
 		go func() {
@@ -592,6 +610,10 @@ func runScenario(c *vlib.Ctx, sc scenario, r *vlib.Rand, label string) {
 					return
 				default:
 					cl.SendAndClear()
+					atomic.AddInt64(&clearCalls, 1)
+					if sc.clearPauseUs > 0 {
+						time.Sleep(time.Duration(sc.clearPauseUs) * time.Microsecond)
+					}
 					runtime.Gosched()
 				}
 			}
@@ -753,10 +775,22 @@ func runScenario(c *vlib.Ctx, sc scenario, r *vlib.Rand, label string) {
 			}
 		}
 	}
+	if bgStarted != nil {
+		<-bgStarted // the teardown below relies on the drain goroutine existing
+	}
 	if sc.sendClear {
+		if sc.lateBg {
+			// the senders are done; let drain and SendAndClear compete for what is still queued
+			for w := 0; w < 4000 && cl.Queue.Size() > 0; w++ {
+				time.Sleep(250 * time.Microsecond)
+			}
+		}
 		close(stopClear)
 	}
 	wg.Wait()
+	if sc.sendClear {
+		c.Count("send_and_clear_calls/"+sc.kind, atomic.LoadInt64(&clearCalls))
+	}
 
 	// ---- wait for quiescence of the collector --------------------------------------
 	var all []sendEv
@@ -1345,6 +1379,13 @@ func main() {
 	// (round 7: 6 → 36 scenarios of up to 400 sends per sender; the window in which the drain
 	// holds a request it has looked at but not yet taken, while SendAndClear empties the queue,
 	// is a few instructions wide)
+	// the same with a drain that starts on a filled queue and a paced SendAndClear, so that both
+	// really work on the queue at the same time (added after seeded change C06r7-2: the drain
+	// looked at the head request, sent it, and only then removed "the head")
+	c.Cases("queue-sendclear-busy", scale(40, 400), func(i int, r *vlib.Rand) {
+		runScenario(c, scenario{kind: "queue-sendclear", senders: r.Range(1, 6), perSender: r.Range(150, 600), gomax: gomaxes[(i+1)%4], useQueue: true, queueSize: 0, bg: true, sendClear: true,
+			lateBg: true, clearPauseUs: []int{0, 20, 100, 400, 1500}[r.Intn(5)]}, r, fmt.Sprint("queue-sendclear-busy#", i))
+	})
 	c.Cases("queue-sendclear", scale(36, 400), func(i int, r *vlib.Rand) {
 		runScenario(c, scenario{kind: "queue-sendclear", senders: r.Range(1, 6), perSender: r.Range(40, 400), gomax: gomaxes[(i+3)%4], useQueue: true, queueSize: 0, bg: true, sendClear: true}, r, fmt.Sprint("queue-sendclear#", i))
 	})
